@@ -33,7 +33,7 @@ Conforms ==
                    kind |-> "word", comp |-> "frame", word |-> base + x,
                    observed |-> W[r].r[x + 1], expected |-> CheckWord(base + x)])
   /\ ReportAll({ x \in 0..255 : base + x < 2048 /\ W[r].kb[x + 1] # KbExpected(base + x) },
-       LAMBDA x : [prop |-> IF W[r].kb[x + 1][1] = "panic" THEN "C08" ELSE "C05", also |-> <<"C05", "C18">>,
+       LAMBDA x : [prop |-> IF W[r].kb[x + 1][1] = "panic" THEN "C08" ELSE "C05", also |-> <<"C05">>,
                    kind |-> "word", comp |-> "kb2", word |-> base + x,
                    observed |-> W[r].kb[x + 1], expected |-> KbExpected(base + x)])
   /\ ReportAll({ x \in 0..255 : W[r].r[x + 1][1] = "panic" \/ W[r].kb[x + 1][1] = "panic" },
